@@ -48,7 +48,7 @@ prop('C12', [v('v_poll', 'C12'), k('k_bridge', 'C12')], [B1, B3, CLOCK], VERUS_T
 prop('C13', [v('v_poll', 'C13'), k('k_bridge', 'C13')], [B1, B3, CLOCK, FEEDCLOCK], VERUS_TB)
 prop('C14', [v('v_poll', 'C14'), k('k_bridge', 'C14')], [B1, B3, CLOCK], VERUS_TB)
 prop('C15', [v('v_cc14', 'C15'), v('v_nrpn', 'C15'), v('v_poll', 'C15'), k('k_bridge', 'C15')], [B1, B3, CLOCK, LANG], VERUS_TB)
-prop('C16', [v('v_cc14', 'C16'), v('v_nrpn', 'C16'), v('v_poll', 'C16'), v('v_msg', 'C16'), k('k_bridge', 'C16')], [B1, B3, CLOCK], VERUS_TB)
+prop('C16', [v('v_cc14', 'C16'), v('v_nrpn', 'C16'), v('v_poll', 'C16'), v('v_msg', 'C16'), k('k_bridge', 'C16'), k('k_contracts', 'C16')], [B1, B3, CLOCK], VERUS_TB)
 prop('C17', [v('v_cc14', 'C17'), v('v_nrpn', 'C17'), v('v_poll', 'C17'), k('k_bridge', 'C17')], [B1, B3, CLOCK, LANG], VERUS_TB)
 prop('C18', [v('v_msg', 'C18'), v('v_cc14', 'C18'), v('v_nrpn', 'C18'), v('v_poll', 'C18'), k('k_bridge', 'C18'), k('k_newtype', 'C18q'), k('k_short', 'C18', thorough_only=True), k('k_newtype', 'C18', thorough_only=True), k('k_newtype', 'C18', 'none', thorough_only=True)], [B1, B3, CLOCK], VERUS_TB)
 
